@@ -1702,6 +1702,86 @@ static void cmd_state(char **tok)
     emit_end(&g_out);
 }
 
+static int parse_cert_file(const char *path, psX509Cert_t **chain)
+{
+    FILE *f = fopen(path, "rb");
+    unsigned char *buf;
+    long n;
+    int rc;
+    if (!f) die("cannot open %s", path);
+    fseek(f, 0, SEEK_END); n = ftell(f); fseek(f, 0, SEEK_SET);
+    buf = malloc(n + 1);
+    if (fread(buf, 1, n, f) != (size_t) n) die("read %s", path);
+    fclose(f);
+    rc = psX509ParseCertData(NULL, buf, n, chain, 0);     /* appends to *chain */
+    free(buf);
+    return rc;
+}
+
+/* validate chain=<pem>[,<pem>..] ca=<pem>[,<pem>..] [name=<expected>] [ntype=host|cn|dns|email|ip] [tag=<id>] [depth=<n>]
+   runs the library's certificate path validation on files; reports the verdict and per-certificate status */
+static void cmd_validate(char **tok, int ntok)
+{
+    psX509Cert_t *chain = NULL, *cas = NULL, *found = NULL, *c;
+    const char *v;
+    char tmp[2048], *parts[16];
+    int n, k, prc = 0, rc = -999, caskip = 0, caok[16], ncaf = 0;
+    matrixValidateCertsOptions_t vo;
+    memset(&vo, 0, sizeof(vo));
+    g_cur_cb_ep = NULL;
+    if ((v = opt_get(tok, ntok, "chain")))
+    {
+        snprintf(tmp, sizeof(tmp), "%s", v);
+        n = split_csv(tmp, parts, 16);
+        for (k = 0; k < n && prc >= 0; k++) prc = parse_cert_file(parts[k], &chain);
+    }
+    if (prc >= 0 && (v = opt_get(tok, ntok, "ca")) && *v)
+    {
+        snprintf(tmp, sizeof(tmp), "%s", v);
+        n = split_csv(tmp, parts, 16);
+        /* a trust anchor the library refuses to load is simply not a trust anchor */
+        for (k = 0; k < n && k < 16; k++) { caok[k] = parse_cert_file(parts[k], &cas) >= 0; if (!caok[k]) caskip++; }
+        ncaf = n < 16 ? n : 16;
+    }
+    v = opt_get(tok, ntok, "ntype");
+    vo.nameType = NAME_TYPE_HOSTNAME;
+    if (v && !strcmp(v, "cn")) vo.nameType = NAME_TYPE_CN;
+    else if (v && !strcmp(v, "dns")) vo.nameType = NAME_TYPE_SAN_DNS;
+    else if (v && !strcmp(v, "email")) vo.nameType = NAME_TYPE_SAN_EMAIL;
+    else if (v && !strcmp(v, "ip")) vo.nameType = NAME_TYPE_SAN_IP_ADDRESS;
+    else if (v && !strcmp(v, "any")) vo.nameType = NAME_TYPE_ANY;
+    vo.max_verify_depth = opt_int(tok, ntok, "depth", 0);
+    if (prc >= 0 && chain)
+    {
+        char *nm = (char *) opt_get(tok, ntok, "name");
+        char nmbuf[512];
+        if (nm)
+        {
+            /* %00 / %xx escapes allow NUL and control characters in the expected name */
+            int i = 0, o = 0;
+            while (nm[i] && o < 500)
+            {
+                if (nm[i] == '%' && hexval(nm[i + 1]) >= 0 && hexval(nm[i + 2]) >= 0) { nmbuf[o++] = (char) (hexval(nm[i + 1]) * 16 + hexval(nm[i + 2])); i += 3; }
+                else nmbuf[o++] = nm[i++];
+            }
+            nmbuf[o] = 0;
+            nm = nmbuf;
+        }
+        rc = matrixValidateCertsExt(NULL, chain, cas, nm, &found, NULL, NULL, &vo);
+    }
+    emit_begin(&g_out, "validate", NULL);
+    sb_printf(&g_out, ",\"tag\":\"%s\",\"prc\":%d,\"rcn\":%d,\"st\":[", opt_get(tok, ntok, "tag") ? opt_get(tok, ntok, "tag") : "", prc < 0 ? prc : 0, rc);
+    for (c = chain, k = 0; c; c = c->next, k++) sb_printf(&g_out, "%s%d", k ? "," : "", c->authStatus);
+    sb_printf(&g_out, "],\"fl\":[");
+    for (c = chain, k = 0; c; c = c->next, k++) sb_printf(&g_out, "%s%d", k ? "," : "", (int) c->authFailFlags);
+    sb_printf(&g_out, "],\"found\":%d,\"caskip\":%d,\"caok\":[", found ? 1 : 0, caskip);
+    for (k = 0; k < ncaf; k++) sb_printf(&g_out, "%s%d", k ? "," : "", caok[k]);
+    sb_printf(&g_out, "]");
+    emit_end(&g_out);
+    if (chain) psX509FreeCert(chain);
+    if (cas) psX509FreeCert(cas);
+}
+
 static void run_line(char *line)
 {
     char *tok[64];
@@ -1747,6 +1827,7 @@ static void run_line(char *line)
     else if (!strcmp(tok[0], "del")) cmd_del(tok);
     else if (!strcmp(tok[0], "state")) cmd_state(tok);
     else if (!strcmp(tok[0], "autoflush")) ep_get(tok[1])->autoflush = atoi(tok[2]);
+    else if (!strcmp(tok[0], "validate")) cmd_validate(tok, ntok);
     else if (!strcmp(tok[0], "hsedit"))
     {
         g_skip_armed = 1;
